@@ -222,7 +222,7 @@ def _workdir():
     if _wd is None:
         import atexit
         import shutil
-        _wd = tempfile.mkdtemp(prefix="vt_c16_", dir="/var/tmp")
+        _wd = tempfile.mkdtemp(prefix="vt_c16_", dir=os.environ.get("VT_WORKDIR") or "/var/tmp")
         atexit.register(shutil.rmtree, _wd, True)
     return _wd
 
